@@ -454,6 +454,59 @@ fn check_index(r: &mut Replica, u: &Universe, rng: &mut Rng) -> Result<(), Fail>
     Ok(())
 }
 
+/// Star family: `w` children of init.  Replica P holds all of them (w lazy heads); for each k a
+/// replica S_k holds all but child k.  C19: S_k must decide to sync on P's hello (P has a
+/// non-merge command S_k lacks), also beyond the peer-cache / sample sizes (w > 10); C04/C01: two
+/// histories of P agree on the hello head.
+fn run_star(case: &Value, args: &Args, rng: &mut Rng) -> Result<(Value, u64), Fail> {
+    let merge_tag = args.opt_u64("merge_tag", 2) as u8;
+    audit::set_merge_tag(merge_tag);
+    let w = case.u("star");
+    let init = ACmd::new(ids::init_id(), Priority::Init, Prior::None, b'n', "1");
+    let kids: Vec<ACmd> = (0..w)
+        .map(|i| ACmd::new(ids::basic_id(1 + (i % 200) as u8, (i / 200) as u16), Priority::Basic((i % 2) as u32), Prior::Single(init.address()), b'n', &format!("k{i}")))
+        .collect();
+    let build = |skip: Option<u64>, rng: &mut Rng, shuffle: bool| -> Result<Replica, Fail> {
+        let mut r = Replica::new(ids::init_id());
+        let mut sink = ASink::new();
+        let mut order: Vec<ACmd> = kids.iter().enumerate().filter(|(i, _)| Some(*i as u64) != skip).map(|(_, c)| c.clone()).collect();
+        if shuffle {
+            rng.shuffle(&mut order);
+        }
+        let mut t = r.txn();
+        r.deliver(&mut t, &mut sink, std::slice::from_ref(&init)).map_err(|e| fail("tool:star", err_class(&e)))?;
+        for c in order.chunks(3) {
+            r.deliver(&mut t, &mut sink, c).map_err(|e| fail("C08:star-deliver", format!("delivering siblings failed: {}", err_class(&e))))?;
+        }
+        r.commit(t, &mut sink).map_err(|e| fail("C08:star-commit", format!("committing {w} sibling heads failed: {}", err_class(&e))))?;
+        Ok(r)
+    };
+    let mut p = build(None, rng, false)?;
+    let mut p2 = build(None, rng, true)?;
+    let hp = p.hello().map_err(|e| fail("C04:hello-error", format!("hello_head of {w} heads failed: {}", err_class(&e))))?;
+    let hp2 = p2.hello().map_err(|e| fail("C04:hello-error", err_class(&e)))?;
+    if hp != hp2 || p.view().map_err(|e| fail("tool:view", e))? != p2.view().map_err(|e| fail("tool:view", e))? {
+        return Err(fail("C01:diverge", format!("two histories of a {w}-wide star disagree")));
+    }
+    let picks: Vec<u64> = if w <= 16 { (0..w).collect() } else { (0..12).map(|_| rng.below(w)).chain([0, w - 1, 9, 10, 11]).collect() };
+    for k in picks {
+        let mut s = build(Some(k), rng, false)?;
+        match s.should_sync(hp) {
+            Ok(true) => {}
+            Ok(false) => {
+                return Err(fail("C19:suppressed", format!("replica lacking sibling k{k} of a {w}-wide star decided not to sync on the full replica's hello")))
+            }
+            Err(e) => return Err(fail("C19:error", format!("should_sync_on_hello failed: {}", err_class(&e)))),
+        }
+        // same head set => same hello (C19 second clause)
+        let mut s2 = build(Some(k), rng, true)?;
+        if s.hello().ok() != s2.hello().ok() {
+            return Err(fail("C19:hello-differs", format!("two replicas with the same {}-head set advertise different hello heads", w - 1)));
+        }
+    }
+    Ok((json!({"star": w}), 0))
+}
+
 /// Ladder family (DESIGN §5 C02): a chain of `rungs` diamonds a_i, b_i -> m_i under init plus a
 /// sibling branch of `side` commands; committing {top of ladder, side tip} braids a region with
 /// one convergence point per rung (ConvergenceMap spills beyond 768) and > 256 braided commands
@@ -562,7 +615,8 @@ pub fn run(args: &Args) {
     for (i, case) in args.read_input().iter().enumerate() {
         let mut rng = Rng::new(args.seed ^ (i as u64).wrapping_mul(0x9E37_79B9));
         let is_ladder = case.get("rungs").is_some() || case.get("fan").is_some();
-        match vrt::catch_any(|| if is_ladder { run_ladder(case, args, &mut rng) } else { run_case(case, args, &mut rng) }) {
+        let is_star = case.get("star").is_some();
+        match vrt::catch_any(|| if is_star { run_star(case, args, &mut rng) } else if is_ladder { run_ladder(case, args, &mut rng) } else { run_case(case, args, &mut rng) }) {
             Ok(Ok((obs, drift))) => out.emit(json!({"i": i, "ok": true, "step": -1, "obs": obs, "drift": drift})),
             Ok(Err(f)) => {
                 if f.key.starts_with("tool:") {
